@@ -123,7 +123,7 @@ Spec == Init /\ [][Next]_vars
 View == <<[st EXCEPT !.evs = <<>>], g>>
 
 (* ---- properties: one invariant per property = no clause of it has failed without a listed finding ------------- *)
-OpenKF == {"KF-B.get", "KF-B.set", "KF-B.wake", "KF-E"}
+OpenKF == {"KF-B.get", "KF-B.set", "KF-B.wake", "KF-E", "KF-K"}
 Bad(p) == {v \in g.viol : v.kf \notin OpenKF /\ \E i \in 1..1 : v.c \in M!Clauses(p)}
 C01_OK == Bad("C01") = {}
 C02_OK == Bad("C02") = {}
